@@ -872,4 +872,9 @@ def run_property(mod, argv):
             'correspondence harness (%s)' % type(e).__name__,
             '\n'.join(str(x) for x in e.args),
         )
+    except Exception as e:  # noqa: BLE001  a crash of the check is not a verdict
+        import traceback
+        tb = traceback.format_exc()
+        ctx.log('the check itself failed: %s' % tb[-1500:])
+        ctx.broken('check machinery (%s: %s)' % (type(e).__name__, str(e)[:200]), tb)
     return ctx.finish()
